@@ -131,6 +131,8 @@ def run(model, rep, tier):
     rep.explanation = __doc__.strip()
     from ._common import caches_for
     caches_for(model, rep, 'C04')
+    from ._common import scale_free_tests
+    scale_free_tests(model, rep)
     from ._common import inverse_map_placed
     inverse_map_placed(model, rep, [('OnsagerCalc', 'Interstitial', '__init__', 'invmap'), ('OnsagerCalc', 'VacancyMediated', '__init__', 'invmap')])
     rep.not_decided = 'kT co-scaling, displacement invariance and exact proportionality to the rates (numerical)'
